@@ -10,6 +10,16 @@ def sha : Bytes → Bytes := Prim.sha256
 def parseList (s : String) : Option (List Bytes) :=
   if s == "-" then some [] else (s.splitOn ",").mapM ofHex
 
+/-- Chunks as the connection delivers them: `hex` or `hext` (delivered together with a non-EOF
+error); with `eofLast` the last one comes with `io.EOF`. -/
+def parseChunks (s : String) (eofLast : Bool) : Option (List (Bytes × RdErr)) :=
+  if s == "-" then some [] else do
+    let items ← (s.splitOn ",").mapM fun w =>
+      if w.endsWith "t" then (ofHex (w.dropEnd 1).toString).map fun b => (b, RdErr.other)
+      else (ofHex w).map fun b => (b, RdErr.none)
+    let n := items.length
+    pure ((items.zipIdx).map fun (x, i) => if eofLast && i + 1 == n then (x.1, RdErr.eof) else x)  -- io.EOF wins on the last chunk (as in the harness's reader)
+
 def handle (line : String) : String :=
   match words line with
   | ["hs", tape, tag, dc, secret] =>
@@ -23,7 +33,8 @@ def handle (line : String) : String :=
         | .ok (m, _) => s!"ok {toHex header} {toHex m.protocol} {m.dc}"
     | _, _, _, _ => "bad-op"
   | ["data", tape, tag, dc, secret, c2s, upChunks, s2c, downChunks, eofLast] =>
-    match ofHex tape, ofHex tag, dc.toInt?, ofHex secret, parseList c2s, parseList upChunks, parseList s2c, parseList downChunks with
+    let e := eofLast == "true"
+    match ofHex tape, ofHex tag, dc.toInt?, ofHex secret, parseList c2s, parseChunks upChunks e, parseList s2c, parseChunks downChunks e with
     | some tape, some tag, some dc, some secret, some c2s, some upChunks, some s2c, some downChunks =>
       match handshake X sha tape tag dc secret with
       | .error e => "err " ++ e.tag
@@ -32,10 +43,9 @@ def handle (line : String) : String :=
         | .error e => "err accept-" ++ e.tag
         | .ok (_, sk) =>
           let (wireUp, _) := writeAll X ck.encrypt c2s
-          let e := eofLast == "true"
-          let (gotUp, _) := readAllE X e sk.decrypt upChunks
+          let (gotUp, _) := readAllE X sk.decrypt upChunks
           let (wireDown, _) := writeAll X sk.encrypt s2c
-          let (gotDown, _) := readAllE X e ck.decrypt downChunks
+          let (gotDown, _) := readAllE X ck.decrypt downChunks
           s!"{toHex wireUp} {toHex gotUp} {toHex wireDown} {toHex gotDown}"
     | _, _, _, _, _, _, _, _ => "bad-op"
   | _ => "bad-op"
